@@ -220,7 +220,8 @@ def gen(rng, tier, cfg, consts):
 def run(chk, replay=None):
     gens = gen_sources()
     consts = [(n, int(m), int(s)) for n, m, s in gens["constants"]]
-    proof = proof_check(PID, gen_theorems=["C01Constants"])
+    proof = proof_check(PID, gen_theorems=["C01Constants", "OpsTable"])
+    proof = add_ops_table(proof, gen_sources())
     drv = build_driver()
     exe = build_harness("default")
     cfg = harness_config(exe)
